@@ -476,6 +476,10 @@ class SpaceTranslator(ParentTranslator):
             if k[0] != '_':
                 lines.append(k + ' = None')
 
+        for k in space.spaces:      # Child spaces can have builtin names too
+            if k[0] != '_':
+                lines.append(k + ' = None')
+
         for k, v in space.cells.items():
             src = v.formula.source
             if is_lambda_expr(src):
